@@ -14,6 +14,8 @@
 (*                                   slab entries at that time              *)
 (*   resp  {run,id,st}               a response read from the channel       *)
 (*   probe {run,l,h,out}             what a client observed on listener l   *)
+(*   view  {run,c,present,hc,hf,tf,be}  the worker's QueryClusterById(c)    *)
+(*                                   answer in the spec's ids               *)
 (*   exit  {run,how}                 the worker thread ended (clean/panic/  *)
 (*                                   hang)                                  *)
 (* Within a batch the harness writes the cmd events (worker order) and then *)
@@ -77,6 +79,18 @@ T_Probe ==
   /\ Ev.out \in Probes[Ev.l][Ev.h]
   /\ Consume /\ UNCHANGED <<vars, rd>>
 
+\* the worker's answer to QueryClusterById, projected by the harness onto the spec's ids
+AsSet(q) == {q[j] : j \in 1..Len(q)}
+T_View ==
+  /\ Is("view")
+  /\ Ev.present = (Ev.c \in cfg.cl)
+  /\ Ev.present =>
+       /\ Ev.hc = (Ev.c \in cfg.hc)
+       /\ AsSet(Ev.hf) = {f \in cfg.hf : FDef[f].cluster = Ev.c}
+       /\ AsSet(Ev.tf) = {t \in cfg.tf : TDef[t].cluster = Ev.c}
+       /\ AsSet(Ev.be) = {b \in cfg.be : BDef[b].cluster = Ev.c}
+  /\ Consume /\ UNCHANGED <<vars, rd>>
+
 T_Exit ==
   /\ Is("exit")
   /\ Ev.how = "clean" /\ stopped
@@ -87,7 +101,7 @@ T_Silent ==
   /\ (Flush \/ LoopEnd)
   /\ silent' = silent + 1 /\ UNCHANGED <<i, rd>>
 
-TraceNext == T_Reset \/ T_Send \/ T_Cmd \/ T_Resp \/ T_Probe \/ T_Exit \/ T_Silent
+TraceNext == T_Reset \/ T_Send \/ T_Cmd \/ T_Resp \/ T_Probe \/ T_View \/ T_Exit \/ T_Silent
 TraceSpec == TInit /\ [][TraceNext]_tvars
 
 \* register 1 = highest number of events consumed on any explored path
